@@ -158,7 +158,8 @@ class World:
         self.stratum = stratum
         self.record = record
         self.force_kind = pool_kind
-        self.isl = ci.load(mutant['patches'] if mutant else None)
+        self.ci = self.island_module()
+        self.isl = self.ci.load(mutant['patches'] if mutant else None)
         self.mods = self.isl['mods']
         self.violations = []
         self.trace = [] if record else None
@@ -167,6 +168,9 @@ class World:
         self.h = hashlib.blake2b(digest_size=8)
         self.frozen = False
         self.nevents = 0
+
+    def island_module(self):
+        return ci
 
     # -- logging ---------------------------------------------------------
     def ev(self, kind, a='', b='', c=''):
@@ -222,7 +226,7 @@ class World:
 
     # -- run -------------------------------------------------------------------
     def run(self):
-        ci.SIM = self
+        self.ci.SIM = self
         t = self.tape
         c = self.draw_config()
         loop = self.loop = SimLoop()
@@ -234,9 +238,9 @@ class World:
         P._pickle_memoized.cache_clear()
 
         # seams ---------------------------------------------------------------
-        self.pool_pickle = ci.PickleProxy('pool', self.pickle_hook)
+        self.pool_pickle = self.ci.PickleProxy('pool', self.pickle_hook)
         P.pickle = self.pool_pickle
-        self.wp_pickle = ci.PickleProxy('worker_proc', self.pickle_hook)
+        self.wp_pickle = self.ci.PickleProxy('worker_proc', self.pickle_hook)
         wp.pickle = self.wp_pickle
         world = self
 
@@ -275,30 +279,7 @@ class World:
         self.inflight = 0
         self.stopping = False
 
-        # server state: versioned tokens with identity
-        self.S = {}
-        for tn in range(c['ntenants']):
-            self.S[tn] = {
-                'global': real_pickle.dumps(Tok('G', tn, 0)),
-                'sys': immutables.Map({'s': (tn, 0)}),
-                'dbs': {},
-            }
-            for d in range(c['ndb']):
-                self.S[tn]['dbs'][f'db{d}'] = self.new_db(tn, d)
-        self.history = collections.defaultdict(list)   # (tenant, kind) -> earlier objects
-
-        kind = c['pool']
-        common = dict(loop=loop, runstate_dir='/sim', backend_runtime_params=None,
-                      std_schema=Tok('std'), refl_schema=Tok('refl'),
-                      schema_class_layout=Tok('layout'))
-        if kind == 'fixed':
-            pool = P.FixedPool(pool_size=c['nworkers'], dbindex=self, **common)
-        elif kind == 'adaptive':
-            pool = P.SimpleAdaptivePool(pool_size=max(c['nworkers'], 2), dbindex=self, **common)
-        else:
-            pool = P.MultiTenantPool(pool_size=c['nworkers'], cache_size=c['cache_size'], **common)
-        self.pool = pool
-        self.wkind = 'multitenant_worker' if kind == 'multitenant' else 'worker'
+        self.build_server()
 
         self.client_tasks = []
         main = None
@@ -330,8 +311,35 @@ class World:
                                     [repr(ctx.get('exception'))[:200] for ctx in loop.callback_failures][:3])
             self.frozen = True
             loop.shutdown()
-            ci.SIM = None
+            self.ci.SIM = None
         return self.result()
+
+    def build_server(self):
+        c, loop, P = self.cfg, self.loop, self.mods['pool']
+        # server state: versioned tokens with identity
+        self.S = {}
+        for tn in range(c['ntenants']):
+            self.S[tn] = {
+                'global': real_pickle.dumps(Tok('G', tn, 0)),
+                'sys': immutables.Map({'s': (tn, 0)}),
+                'dbs': {},
+            }
+            for d in range(c['ndb']):
+                self.S[tn]['dbs'][f'db{d}'] = self.new_db(tn, d)
+        self.history = collections.defaultdict(list)   # (tenant, kind) -> earlier objects
+
+        kind = c['pool']
+        common = dict(loop=loop, runstate_dir='/sim', backend_runtime_params=None,
+                      std_schema=Tok('std'), refl_schema=Tok('refl'),
+                      schema_class_layout=Tok('layout'))
+        if kind == 'fixed':
+            pool = P.FixedPool(pool_size=c['nworkers'], dbindex=self, **common)
+        elif kind == 'adaptive':
+            pool = P.SimpleAdaptivePool(pool_size=max(c['nworkers'], 2), dbindex=self, **common)
+        else:
+            pool = P.MultiTenantPool(pool_size=c['nworkers'], cache_size=c['cache_size'], **common)
+        self.pool = pool
+        self.wkind = 'multitenant_worker' if kind == 'multitenant' else 'worker'
 
     def hang(self):
         pend = [i for i, tk in enumerate(self.client_tasks) if not tk.done()]
@@ -775,9 +783,9 @@ class World:
         if pid is None:
             self.next_pid += 1
             pid = self.next_pid
-        wk = WorkerProc(pid, kind, version, ci.new_worker_module(kind))
+        wk = WorkerProc(pid, kind, version, self.ci.new_worker_module(kind))
         wk.template = template
-        wk.mod.pickle = ci.PickleProxy('worker', self.pickle_hook)
+        wk.mod.pickle = self.ci.PickleProxy('worker', self.pickle_hook)
         self.procs[pid] = wk
         if delay is None:
             delay = (1 + self.tape.draw(5, 'spawn_delay')) * MS
